@@ -213,3 +213,38 @@ func c35IndentedHeaderEntry(data []byte) bool {
 	}
 	return false
 }
+
+// VerifC35_largeSectionKeepsDuplicateWinner: a section with many entries, one
+// key defined twice with different values at arbitrary positions. (sort.Slice
+// is not stable: the engine puts equal elements in an arbitrary order; the Go
+// library only does so for more than 12 elements, which is why the section is
+// this large: the counterexample then also reproduces natively.)
+func VerifC35_largeSectionKeepsDuplicateWinner() {
+	keys := []string{"n", "m", "l", "k", "j", "i", "h", "g", "f", "e", "d", "c", "b", "z"}
+	if sym.Choice("order", 2) == 1 {
+		keys = []string{"b", "c", "d", "e", "f", "g", "h", "i", "j", "k", "l", "m", "n", "z"}
+	}
+	dupKey := []string{"a", "h", "zz"}[sym.Choice("dupKey", 3)]
+	p1 := sym.Choice("firstAt", 4) * 4 // 0, 4, 8, 12
+	p2 := 14
+	var lines []string
+	for i, k := range keys {
+		if i == p1 {
+			lines = append(lines, dupKey+"=old")
+		}
+		lines = append(lines, k+"=v")
+	}
+	_ = p2
+	lines = append(lines, dupKey+"=new")
+	data := []byte("[s]\n" + strings.Join(lines, "\n") + "\n")
+	before, valid := c35Compile(data)
+	sym.Assume(valid)
+	out, _, err := Format(data)
+	sym.Assert(err == nil, "Format rejected a well-formed section")
+	if err != nil {
+		return
+	}
+	sym.Reach("formatted-large")
+	after, ok := c35Compile(out)
+	sym.Assert(ok && c35SameTable(before, after), "langlint formatting changed the compiled message table")
+}
